@@ -44,7 +44,8 @@ def dispatch_fallthrough(ctx, qualname: str, param: str, what: str, known):
                 args[q] = arr_param('in:' + q, length=L)
             else:
                 args[q] = Num(sym.sym('in:' + q))
-        ev = Evaluator(ctx.prog, inline=lambda f: False, opaque_kind=REPO_RESULT_KIND)
+        from .common import inline_except, SCANS
+        ev = Evaluator(ctx.prog, inline=inline_except(*SCANS, 'traffic_weaver.rfa.'), opaque_kind=REPO_RESULT_KIND)
         a_ = fi.node.args
         star = Term('param', (Const('**kw'),), kind='dict') if a_.kwarg else None
         res, st = ev.run_function(fi, args=args, star_kwargs=star)
@@ -104,10 +105,7 @@ def check_guards(ctx, wm: WeaverModel):
     dispatch_fallthrough(ctx, SAU + 'find_closest_element_indices_to_values', 'strategy', 'search strategy', ['closest', 'lower', 'higher'])
     dispatch_fallthrough(ctx, PROC + 'interpolate', 'method', 'interpolation method', ['linear', 'constant', 'cubic', 'spline'])
     # kernel's own validation
-    kfi = ctx.prog.func(MATCH + '_integral_matching_stretch')
-    rs = callee_raises(ctx.prog, kfi)
-    ctx.check(any(e.data.get('exc') == 'ValueError' for e in rs), 'C20.1', 'unknown integration rule: the stretch kernel (or integral()) raises ValueError',
-              f"{[(e.data.get('exc'), e.loc()) for e in rs]}", kfi.loc(), kfi.qualname, 'kernel-rule')
+    dispatch_fallthrough(ctx, MATCH + '_integral_matching_stretch', 'integral_method', 'integration rule (stretch kernel)', ['trapezoid', 'rectangle'])
     # 7 dataset name
     lfi = ctx.prog.func('traffic_weaver.datasets._base.load_dataset')
     handlers = [n for n in ast.walk(lfi.node) if isinstance(n, ast.ExceptHandler)]
